@@ -515,3 +515,156 @@ package quic
 //@   ensures [stop-sending-once] called("(quic.streamSender).onHasStreamControlFrame") == ite(!old(s.cancelledLocally) && s.closeForShutdownErr == nil && !s.errorRead && !s.cancelledRemotely, 1, 0)
 //@   ensures [abandon-with-completion] called("(*streamFlowController).Abandon") == ite(s.completed && !old(s.completed), 1, 0)
 //@   modifies s.cancelledLocally, s.queuedStopSending, s.cancelErr, s.completed, fc.bytesRead, conn.bytesRead
+
+// ---------------- ClientHello scrambler (C09) ----------------
+//@ extern (r encoding/binary.bigEndian) Uint16
+//@   requires len(b) >= 2
+//@   ensures result == uint16(b[0]) * 256 + uint16(b[1])
+//@   modifies nothing
+
+//@ func findSNIAndECH
+//@   props C09
+//@   ensures [sni-in-range] implies(err == nil, sniPos == -1 || (43 <= sniPos && sniPos + sniLen <= len(data)))
+//@   ensures [sni-len] implies(err == nil, 0 <= sniLen && sniLen <= 65535 && sniLen + 44 <= len(data) || sniLen == 0)
+//@   ensures [ech-in-range] implies(err == nil, echPos == -1 || (43 <= echPos && echPos + 4 <= len(data)))
+//@   ensures [is-client-hello] implies(err == nil, len(data) >= 4 && data[0] == 1)
+//@   modifies nothing
+//@ loop findSNIAndECH #0
+//@   invariant 0 <= extPos && extPos <= extensionsLen && 0 <= sniLen && sniLen <= 65535 && sniLen <= extensionsLen
+//@   invariant sniPos == -1 || (extensionsStart <= sniPos && sniPos + sniLen <= extensionsStart + extensionsLen)
+//@   invariant echPos == -1 || (extensionsStart <= echPos && echPos + 4 <= extensionsStart + extensionsLen)
+//@   modifies nothing
+//@ loop findSNIAndECH #1
+//@   invariant 2 <= listPos && listPos <= nameListLen + 2 && 0 <= sniLen && sniLen <= 65535 && sniLen <= extensionsLen && sniPos == -1
+//@   modifies nothing
+
+//@ pred (s *initialCryptoStream) cutOK(i int) = s.cuts[i].start == -1 || (0 <= s.cuts[i].start && s.cuts[i].start <= s.cuts[i].end && s.cuts[i].end <= s.end)
+//@ pred (s *initialCryptoStream) cutsOK() = s.cutOK(0) && s.cutOK(1) && 0 <= s.end && s.end <= len(s.writeBuf) && 0 <= s.writeOffset && s.writeOffset <= s.end
+
+//@ func (s *initialCryptoStream) Write$1
+//@   props C09
+//@   ensures [order] iff(result < 0, a.start != -1 && (b.start == -1 || a.start <= b.start))
+//@   modifies nothing
+
+//@ func (s *initialCryptoStream) HasData
+//@   props C09
+//@   ensures [iff] iff(result, len(s.writeBuf) > 0 && !(s.scramble && s.writeOffset == 0 && s.cuts[0].start == -1))
+//@   modifies nothing
+
+//@ func (s *initialCryptoStream) PopAllCryptoData
+//@   props C09
+//@   requires 0 <= s.writeOffset && s.writeOffset <= 4611686018427387903
+//@   ensures [scrambling-owns] implies(old(s.scramble), result == nil && len(s.writeBuf) == old(len(s.writeBuf)) && s.writeOffset == old(s.writeOffset))
+//@   ensures [whole-stream] implies(!old(s.scramble), samearray(result, old(s.writeBuf)) && len(result) == old(len(s.writeBuf)) && len(s.writeBuf) == 0 && s.writeOffset == old(s.writeOffset) + len(result))
+//@   modifies s.writeBuf, s.writeOffset
+
+//@ func (s *initialCryptoStream) Write
+//@   props C09
+//@   requires implies(s.scramble && s.cuts[0].start == -1, s.cuts[1].start == -1 && s.writeOffset == 0)
+//@   requires implies(s.scramble && s.cuts[0].start != -1, s.cutsOK())
+//@   ensures [count] result0 == len(p)
+//@   ensures [appended] len(s.writeBuf) == old(len(s.writeBuf)) + len(p)
+//@   ensures [cuts-ok] implies(s.scramble && s.cuts[0].start != -1, s.cutsOK())
+//@   ensures [ready-when-cut] implies(s.scramble && s.cuts[1].start != -1, s.cuts[0].start != -1)
+//@   ensures [sorted] implies(old(s.cuts[0].start == -1) && s.scramble && s.cuts[0].start != -1 && s.cuts[1].start != -1, s.cuts[0].start <= s.cuts[1].start)
+//@   ensures [untouched-after-ready] implies(old(s.scramble && s.cuts[0].start != -1), s.scramble && s.end == old(s.end) && s.cuts[0].start == old(s.cuts[0].start) && s.cuts[1].start == old(s.cuts[1].start) && s.cuts[0].end == old(s.cuts[0].end) && s.cuts[1].end == old(s.cuts[1].end))
+//@   ensures [plain] implies(!old(s.scramble), !s.scramble && result1 == nil)
+//@   modifies s.writeBuf, s.scramble, s.end, s.cuts[*], elems(uint8)
+
+//@ func (s *baseCryptoStream) HasData
+//@   props C03 C09
+//@   ensures result == (len(s.writeBuf) > 0)
+//@   modifies nothing
+
+//@ func (s *baseCryptoStream) Write
+//@   props C03 C09
+//@   ensures [count] result0 == len(p) && result1 == nil
+//@   ensures [appended] len(s.writeBuf) == old(len(s.writeBuf)) + len(p)
+//@   modifies s.writeBuf, elems(uint8)
+
+//@ func (s *initialCryptoStream) PopCryptoFrame
+//@   props C09
+//@   requires implies(s.scramble, s.cutsOK()) && 0 <= s.writeOffset && s.writeOffset <= 4611686018427387903 && 0 <= maxLen && maxLen <= 16383
+//@   ensures [true-offset] implies(old(s.scramble) && result != nil, alias(result.Data, old(s.writeBuf), result.Offset) && len(result.Data) >= 1 && 0 <= result.Offset && result.Offset + len(result.Data) <= old(s.end))
+//@   ensures [plain-true-offset] implies(!old(s.scramble) && result != nil, result.Offset == old(s.writeOffset) && alias(result.Data, old(s.writeBuf), 0) && len(result.Data) >= 1)
+//@   ensures [plain-advance] implies(!old(s.scramble) && result != nil, s.writeOffset == old(s.writeOffset) + len(result.Data) && alias(s.writeBuf, old(s.writeBuf), len(result.Data)) && len(s.writeBuf) == old(len(s.writeBuf)) - len(result.Data))
+//@   ensures [fits] implies(result != nil, 1 + quicvarint.vlen(uint64(result.Offset)) + quicvarint.vlen(uint64(len(result.Data))) + len(result.Data) <= maxLen)
+//@   ensures [inv] implies(s.scramble, s.cutsOK() && old(s.scramble))
+//@   ensures [buffer-kept-while-scrambling] implies(s.scramble, samearray(s.writeBuf, old(s.writeBuf)) && len(s.writeBuf) == old(len(s.writeBuf)) && s.end == old(s.end))
+//@   ensures [hand-over] implies(old(s.scramble) && !s.scramble, old(s.writeOffset) == old(s.end) && s.writeOffset == old(s.end) && alias(s.writeBuf, old(s.writeBuf), old(s.end)) && len(s.writeBuf) == old(len(s.writeBuf)) - old(s.end))
+//@   ensures [no-skipping] implies(old(s.scramble) && old(s.writeOffset) < old(s.end) && result != nil, result.Offset == old(s.writeOffset) && s.writeOffset >= old(s.writeOffset) + len(result.Data))
+//@   modifies s.writeBuf, s.writeOffset, s.end, s.scramble, s.cuts[*]
+//@ loop (s *initialCryptoStream) PopCryptoFrame #0
+//@   invariant s.cutsOK() && s.writeOffset == s.end && s.scramble
+//@   invariant implies(f == nil, s.cuts[0].start == old(s.cuts[0].start) && s.cuts[0].end == old(s.cuts[0].end) && s.cuts[1].start == old(s.cuts[1].start) && s.cuts[1].end == old(s.cuts[1].end))
+//@   invariant f == nil || (alias(f.Data, s.writeBuf, f.Offset) && len(f.Data) >= 1 && 0 <= f.Offset && f.Offset + len(f.Data) <= s.end && 1 + quicvarint.vlen(uint64(f.Offset)) + quicvarint.vlen(uint64(len(f.Data))) + len(f.Data) <= maxLen)
+//@   modifies s.cuts[*]
+//@ loop (s *initialCryptoStream) PopCryptoFrame #1
+//@   invariant nextCut.start == -1 && nextCut.end == -1
+//@   modifies nothing
+
+// ---------------- Initial flight builders (C09) ----------------
+//@ func cryptoSafeRandUint64
+//@   trusted draws from crypto/rand through math/big (external); contract is rand.Int's documented range [0, max-min)
+//@   requires max <= min || max - min <= 9223372036854775807
+//@   ensures implies(result1 == nil && max <= min, result0 == min)
+//@   ensures implies(result1 == nil && max > min, min <= result0 && result0 < max)
+//@   modifies nothing
+
+//@ func (r QUICCryptoRange) resolve
+//@   props C09
+//@   requires 0 <= streamLen && streamLen <= 1099511627776
+//@   let s0 = ite(r.Offset < 0, streamLen + r.Offset, r.Offset)
+//@   let e0 = ite(r.Length > 0, s0 + r.Length, streamLen + r.Length)
+//@   ensures [ok-iff] iff(err == nil, 0 <= s0 && s0 <= streamLen && s0 <= e0 && e0 <= streamLen)
+//@   ensures [bounds] implies(err == nil, start == s0 && end == e0 && 0 <= start && start <= end && end <= streamLen)
+//@   modifies nothing
+
+//@ func splitRange
+//@   props C09
+//@   requires 0 <= start && start < end && end <= 1099511627776
+//@   requires maxN <= minN || maxN - minN <= 9223372036854775807
+//@   ensures [count] implies(result1 == nil, len(result0) >= 1 && len(result0) <= end - start)
+//@   modifies nothing
+//@ loop splitRange #0
+//@   invariant 1 <= n && n <= end - start && i <= n - 1 && len(frames) == i && start <= off && off + (n - i) <= end
+//@   invariant isfresh(frames)
+//@   modifies frames[*]
+
+//@ extern bytes.NewReader
+//@   ensures result != nil
+//@   fresh
+//@   modifies nothing
+//@ extern clienthellod.ReadAllFrames
+//@   modifies nothing
+
+//@ func validateInitialFlight
+//@   props C09
+//@   requires 0 <= cryptoLen && cryptoLen <= 1099511627776 && len(budgets) >= 1
+//@   ensures [non-empty] implies(result == nil, len(payloads) >= 1)
+//@   modifies nothing
+//@ loop validateInitialFlight #0
+//@   invariant len(sent) == cryptoLen && isfresh(sent)
+//@   modifies sent[*]
+//@ loop validateInitialFlight #1
+//@   invariant len(sent) == cryptoLen && isfresh(sent)
+//@   modifies sent[*]
+//@ loop validateInitialFlight #2
+//@   invariant len(sent) == cryptoLen && isfresh(sent) && j <= cf.Offset + cf.Length
+//@   modifies sent[*]
+//@ loop validateInitialFlight #3
+//@   modifies nothing
+
+//@ iface (f quic.QUICFrame) CryptoFrameInfo
+//@   modifies nothing
+//@ iface (f quic.QUICFrame) Read
+//@   modifies nothing
+
+//@ func (qfs QUICFrames) buildAbsolute
+//@   props C09
+//@   requires len(fullCrypto) <= 1099511627776
+//@   ensures [no-partial-output] implies(result1 != nil, result0 == nil)
+//@   modifies nothing
+//@ loop (qfs QUICFrames) buildAbsolute #0
+//@   invariant payload == nil || isfresh(payload)
+//@   modifies payload[*]
